@@ -440,12 +440,102 @@ func c19ExactMatch(c *Ctx) {
 				}
 			}
 		}
+		// the same two tests made by a same-package predicate: `if isMethodOf(d, structname, methodname) { return d }`
+		for _, f := range an.Facts(r) {
+			if f.Op != token.ILLEGAL || f.Neg {
+				continue
+			}
+			call, isCall := f.X.(*ssa.Call)
+			if !isCall || call.Call.StaticCallee() == nil {
+				continue
+			}
+			h := call.Call.StaticCallee()
+			for idx := range nameEqualWhenTrue(h) {
+				if idx < len(call.Call.Args) {
+					for name, p := range params {
+						if call.Call.Args[idx] == p {
+							got[name] = true
+						}
+					}
+				}
+			}
+		}
 		ok := got["methodname"] && got["structname"]
 		c.R.Check(ok, "GetPrevDecl/returns-only-exact-match", c.ipos(r), "name == methodname and receiver == structname", sprintf("GetPrevDecl can return a declaration without an exact string match (method name tested exactly: %v, struct name tested exactly: %v): a differently named method's body is taken for the resolver and that method is dropped", got["methodname"], got["structname"]))
 	}
 	if n == 0 {
 		c.R.Fail("exact-match: GetPrevDecl never returns a declaration")
 	}
+}
+
+// nameEqualWhenTrue: the parameter indices of boolean function h that are, on every way h can return true, compared for plain
+// string equality with some node's Name field.
+func nameEqualWhenTrue(h *ssa.Function) map[int]bool {
+	if h == nil || len(h.Blocks) == 0 || h.Signature.Results().Len() != 1 {
+		return nil
+	}
+	pidx := map[ssa.Value]int{}
+	for i, p := range h.Params {
+		pidx[p] = i
+	}
+	tested := func(fs []an.Fact, extra ssa.Value) map[int]bool {
+		out := map[int]bool{}
+		add := func(x, y ssa.Value) {
+			for _, pr := range [][2]ssa.Value{{x, y}, {y, x}} {
+				if i, ok := pidx[pr[1]]; ok {
+					if fa, ok := loadAddr(pr[0]).(*ssa.FieldAddr); ok && fieldNameOf(fa) == "Name" {
+						out[i] = true
+					}
+				}
+			}
+		}
+		for _, f := range fs {
+			if f.Op == token.EQL {
+				add(f.X, f.Y)
+			}
+		}
+		if bo, ok := extra.(*ssa.BinOp); ok && bo.Op == token.EQL {
+			add(bo.X, bo.Y)
+		}
+		return out
+	}
+	var result map[int]bool
+	for _, r := range an.Returns(h) {
+		if h.Recover != nil && r.Block() == h.Recover {
+			continue
+		}
+		for _, ve := range returnValueEdges(r, 0) {
+			if k, isC := ve.val.(*ssa.Const); isC && k.Value != nil && k.Value.String() == "false" {
+				continue
+			}
+			var fs []an.Fact
+			if ve.from != nil {
+				for _, g := range an.BlockGuards(ve.from) {
+					fs = append(fs, an.FactOf(g))
+				}
+				if ve.edgeIf != nil {
+					fs = append(fs, an.FactOf(*ve.edgeIf))
+				}
+			} else {
+				fs = an.Facts(r)
+			}
+			var extra ssa.Value
+			if _, isC := ve.val.(*ssa.Const); !isC {
+				extra = ve.val
+			}
+			t := tested(fs, extra)
+			if result == nil {
+				result = t
+			} else {
+				for i := range result {
+					if !t[i] {
+						delete(result, i)
+					}
+				}
+			}
+		}
+	}
+	return result
 }
 
 // c19PrefixLines: a preserved resolver doc comment is re-emitted through the template helper prefixLines("// ", text).  Every
